@@ -1381,6 +1381,12 @@ def _closed(j):
 
 @rule("pjit", "jit", "closed_call", "core_call", "remat", "checkpoint", "custom_lin")
 def _call(ctx, eqn, *args):
+    if eqn.params.get("name") == "branched_error_if_impl":
+        # eqx.error_if: identity on the success path (D2: the raising path is dropped from the functional VC; the guard
+        # is recorded so that contracts can state it as a precondition)
+        nvals = len(eqn.outvars) - 1
+        ctx.__dict__.setdefault("error_guards", []).append(args[nvals:])
+        return [const_arr(np.int32(0))] + list(args[:nvals])
     j = eqn.params.get("jaxpr") or eqn.params.get("call_jaxpr")
     jaxpr, consts = _closed(j)
     return eval_jaxpr(ctx, jaxpr, consts, args)
